@@ -162,7 +162,7 @@ pub fn check_c03(ctx: &Ctx) -> i32 {
     });
     tally.merge(t2);
 
-    // tick-level jitter: every step sequence over {1, 2, 3, 5} ticks (scaled by 1 and by 600) of
+    // far from zero: four-frame histories from ticks 2^40+1, 2^52+1, 2^52+2, 2^53-41 with delta patterns (3,4,5), (3000,3001,2999), (1,1,1); tick-level jitter: every step sequence over {1, 2, 3, 5} ticks (scaled by 1 and by 600) of
     // up to JMAX steps, for video (write_video) and audio; catches table builders that summarise
     // (run-length, "constant rate" shortcuts) instead of recording each delta
     let jmax = if ctx.thorough { 7 } else { 5 };
@@ -202,6 +202,37 @@ pub fn check_c03(ctx: &Ctx) -> i32 {
         judge_history(FileProp::C03, &cfg, &ops, (3_000_000 + idx as u64, 0), t);
     });
     tally.merge(tj);
+
+    // far from zero: absolute ticks around 2^40, 2^52 (where an f64 holds whole ticks only, so
+    // "+0.5 then truncate" style conversions round odd ticks up) and just below 2^53, with small
+    // irregular deltas; exact deltas are demanded like everywhere else
+    let mut far = vec![];
+    for base in [(1u64 << 40) + 1, (1 << 52) + 1, (1 << 52) + 2, (1 << 53) - 41] {
+        for pat in [[3u64, 4, 5], [3000, 3001, 2999], [1, 1, 1]] {
+            for with_dts in [false, true] {
+                far.push((base, pat, with_dts));
+            }
+        }
+    }
+    let tf = par_items(&far, ctx.seed, |idx, (base, pat, with_dts), t| {
+        let cfg = Cfg::basic(VCodec::H264, None, idx % 2 == 0);
+        let mut tk = *base;
+        let mut ops = vec![];
+        for i in 0..4usize {
+            if i > 0 {
+                tk += pat[i - 1];
+            }
+            let secs = tk as f64 / 90000.0;
+            if !tick_is_robust(secs) || oracle::refmodel::tick(secs) != tk {
+                t.count("skipped_tie_sensitive_timestamps", 1);
+                return;
+            }
+            let (d, _) = video_frame(VCodec::H264, true, true, i as u32 + 1, 4);
+            ops.push(if *with_dts { Op::WVD { pts: T(secs), dts: T(secs), data: Bytes::new(d), key: true } } else { Op::WV { pts: T(secs), data: Bytes::new(d), key: true } });
+        }
+        judge_history(FileProp::C03, &cfg, &ops, (4_000_000 + idx as u64, 0), t);
+    });
+    tally.merge(tf);
 
     // long deterministic traces for the no-drift clause (single executions, not samples of a space)
     let long_n = if ctx.thorough { 100_000 } else { 20_000 };
@@ -260,7 +291,7 @@ pub fn check_c03(ctx: &Ctx) -> i32 {
         Meta {
             level: "model_checking",
             rule: format!(
-                "every video DTS sequence of <= {vmax} frames over the step alphabet {{1/30, 1001/30000, 1001/24000, 1 tick, 0.4 tick, 7.3 s, 2^31 ticks, 2^31-1800 ticks, 2^31+1800 ticks}} from starts {{0, 0.5, 36000 s}}, via write_video and via write_video_with_dts with every composition-offset vector over {{0, -2/30 s, +1/30 s, +1001/24000 s (off the tick grid)}} plus an overflowing offset at each single position, on H.264 and VP9 ({n_video_items} sequence items); every audio PTS sequence of <= {amax} frames over steps {{0, 1024/48000, 1024/44100, 0.02}} x start lead {{0, 0.01}} x {{AAC, Opus}} ({n_audio_items} items); rejected writes are kept in the history and the oracle is applied to the accepted subsequence; tick-level jitter: every step sequence of 2..{jmax} steps over {{1, 2, 3, 5}} ticks x scale {{1, 600}} for video and for audio ({n_jitter} items); plus two long single traces ({long_n} video frames at 29.97/23.976 fps with {} AAC frames at 44.1 kHz) for the no-drift clause. Oracle: stts deltas = differences of exactly rounded absolute timestamps, last-sample rule, ctts presence/values, mdhd duration = sum, no drift at any sample. Distinct by (result vector, output bytes).",
+                "every video DTS sequence of <= {vmax} frames over the step alphabet {{1/30, 1001/30000, 1001/24000, 1 tick, 0.4 tick, 7.3 s, 2^31 ticks, 2^31-1800 ticks, 2^31+1800 ticks}} from starts {{0, 0.5, 36000 s}}, via write_video and via write_video_with_dts with every composition-offset vector over {{0, -2/30 s, +1/30 s, +1001/24000 s (off the tick grid)}} plus an overflowing offset at each single position, on H.264 and VP9 ({n_video_items} sequence items); every audio PTS sequence of <= {amax} frames over steps {{0, 1024/48000, 1024/44100, 0.02}} x start lead {{0, 0.01}} x {{AAC, Opus}} ({n_audio_items} items); rejected writes are kept in the history and the oracle is applied to the accepted subsequence; far from zero: four-frame histories from ticks 2^40+1, 2^52+1, 2^52+2, 2^53-41 with delta patterns (3,4,5), (3000,3001,2999), (1,1,1); tick-level jitter: every step sequence of 2..{jmax} steps over {{1, 2, 3, 5}} ticks x scale {{1, 600}} for video and for audio ({n_jitter} items); plus two long single traces ({long_n} video frames at 29.97/23.976 fps with {} AAC frames at 44.1 kHz) for the no-drift clause. Oracle: stts deltas = differences of exactly rounded absolute timestamps, last-sample rule, ctts presence/values, mdhd duration = sum, no drift at any sample. Distinct by (result vector, output bytes).",
                 2 * long_n
             ),
             bound: format!("video <= {vmax} frames, audio <= {amax} frames; long traces are single deterministic executions"),
